@@ -8,6 +8,7 @@ import Upnp.Model.C02Recv
 import Upnp.Spec.C02
 import Upnp.Gen.C01Ssdp
 import Upnp.Gen.C02Recv
+import Upnp.Spec.C03Cfg
 import Upnp.Drv.C01
 namespace Upnp.Drv.C02
 open Upnp Upnp.Proto Upnp.C01 Upnp.C02
@@ -22,19 +23,22 @@ def genFixes : Fixes :=
     checkBeforePurge := Gen.C02Recv.checkBeforePurge }
 
 structure St where
-  cfg : Cfg := { prefixes := Gen.C01Ssdp.ssdpPrefixes }
+  cfg : Cfg := { prefixes := Gen.C01Ssdp.ssdpPrefixes, trk := { C03.genCfg with tMax := C02.dtMax } }
+  desync : Bool := false   -- the model's tracker state is no longer the implementation's (unmodelled value / raise earlier in the case)
   tr : Tracker := {}
   -- pending model outcome of the last `dg`
   pendRes : Option (Except Exn (Tracker × Eff)) := none
   pendClass : Option Dispatch := none
   pendUnk : Bool := false
+  pendEp : Option Endpoint := none
+  pendMay : Bool := false
   corrOk : Bool := true
   judgeOk : Bool := true
   notes : List String := []
 
 def note (st : St) (s : String) : St := { st with notes := st.notes ++ [s] }
 def corrFail (st : St) (s : String) : St := note { st with corrOk := false } s
-def judgeFail (st : St) (s : String) : St := note { st with judgeOk := false } s
+def judgeFail (st : St) (s : String) : St := { st with judgeOk := false, notes := s :: st.notes }
 
 def parseEp : String → Option Endpoint
   | "adv" => some .adv
@@ -50,8 +54,27 @@ def kvs (toks : List String) : String → Option String :=
 
 def hasUnk (h : Hdrs) : Bool := h.data.any fun p => p.2 == Val.unk
 
-def fmtDevs (d : List (Bytes × Int)) : String :=
-  if d.isEmpty then "~" else ",".intercalate (d.map fun p => s!"{fmtB p.1}={p.2}")
+def fmtDevs (d : List (String × Int)) : String :=
+  if d.isEmpty then "~" else ",".intercalate (d.map fun p => s!"{p.1}={p.2}")
+
+def devsOf (t : Tracker) : List (String × Int) := t.devices.map fun p => (p.1, p.2.validTo)
+
+def srcTok : C03.Source → String
+  | .searchChanged => "search_changed"
+  | .searchAlive => "search_alive"
+  | .advAlive => "advertisement_alive"
+  | .advByebye => "advertisement_byebye"
+  | .advUpdate => "advertisement_update"
+
+/-- `udnhex:typehex:source` of one listener callback -/
+def fmtNotif (n : String × String × C03.Source) : String := s!"{n.1}|{n.2.1}|{srcTok n.2.2}"
+
+def parseCb (c : String) : Option String :=
+  match c.splitOn "|" with
+  | [u, t, sc] => do pure s!"{strOfBytes (← tokB u)}|{strOfBytes (← tokB t)}|{sc}"
+  | _ => none
+
+def pendIsListener (st : St) : Bool := st.pendEp == some .listenerAdv || st.pendEp == some .listenerSearch
 
 def stepOp (st : St) (toks : List String) : St :=
   match toks with
@@ -63,7 +86,7 @@ def stepOp (st : St) (toks : List String) : St :=
       let devs ← parseList (parseKV tokB) (← f "devs")
       let svcs ← parseList tokB (← f "svcs")
       let always ← f "always"
-      pure { prefixes := Gen.C01Ssdp.ssdpPrefixes, targetHost := (tokB tgt).getD [], rootUdn := (tokB root).getD [],
+      pure { prefixes := Gen.C01Ssdp.ssdpPrefixes, trk := { C03.genCfg with tMax := C02.dtMax }, targetHost := (tokB tgt).getD [], rootUdn := (tokB root).getD [],
              devices := devs, services := svcs, alwaysRoot := always == "1" }
     match r with
     | some c => { st with cfg := c }
@@ -75,51 +98,59 @@ def stepOp (st : St) (toks : List String) : St :=
       -- CACHE-CONTROL): only "no raise" is judged and the implementation's tracker state is adopted
       let declared := flags.contains "x"
       -- is a value outside the model involved (URL outside the grammar)?
-      let unk := match protocolRecv genFixes st.cfg.prefixes dat loc src now with
+      let dec := protocolRecv genFixes st.cfg.prefixes dat loc src now
+      let unk := match dec with
         | .ok (some (_, h)) => hasUnk h || declared
         | _ => declared
+      -- the interface assumption between the decoder model and the tracker model, tested on every decoded map
+      let st := match dec with
+        | .ok (some (_, h)) => if udnGuaranteeB h then st else corrFail st "interface: _udn is not the udn of the uuid USN"
+        | _ => st
       { st with pendRes := some (recv genFixes st.cfg ep st.tr dat loc src now),
-                pendClass := classify st.cfg ep dat loc src now, pendUnk := unk }
+                pendClass := classify st.cfg ep dat loc src now, pendUnk := unk, pendEp := some ep, pendMay := mayDrop st.cfg ep dat loc src now }
     | _, _, _, _, _ => corrFail st "bad dg line"
   | "eff" :: rest =>
     let f := kvs rest
-    let parsed : Option (String × Nat × Nat × Nat × List (Bytes × Int) × Option Int × List Bytes × List Bytes) := do
+    let parsed : Option (String × Nat × Nat × Nat × List (String × Int) × Option Int × List String × List String × List String) := do
       let raised ← f "raised"
       let cb ← (← f "cb").toNat?
       let sends ← (← f "sends").toNat?
       let timers ← (← f "timers").toNat?
-      let devs ← parseList (parseKV fun t => t.toInt?) (← f "devs")
+      let devsB ← parseList (parseKV fun t => t.toInt?) (← f "devs")
       let nxs ← f "next"
       let nx ← if nxs = "N" then some none else nxs.toInt?.map some
       let before ← parseList tokB (← f "before")
       let after ← parseList tokB (← f "after")
-      pure (raised, cb, sends, timers, devs, nx, before, after)
+      let cbs ← f "cbs"
+      let cbl : List String ← if cbs = "~" then some [] else (cbs.splitOn ",").mapM parseCb
+      pure (raised, cb, sends, timers, devsB.map (fun p => (strOfBytes p.1, p.2)), nx, before.map strOfBytes, after.map strOfBytes, cbl)
     match parsed, st.pendRes with
-    | some (raised, cb, sends, timers, devs, nx, before, after), some res =>
+    | some (raised, cb, sends, timers, devs, nx, before, after, cbl), some res =>
       let st := { st with pendRes := none }
       -- judge: the implementation's observation only
       let o : C02.Obs := ⟨(if raised = "-" then none else some raised), cb, sends, timers, before, after⟩
-      -- a value outside the model (URL outside the grammar): only "no raise" is judged
-      let verdict := if st.pendUnk then o.raised.isNone else ok st.pendClass o
+      -- a value outside the model (URL outside the grammar, flag x): only "no raise" is judged
+      let verdict := if st.pendUnk then o.raised.isNone else ok st.pendClass o st.pendMay
       let what := if o.raised.isSome then "raised " ++ raised
                   else if st.pendClass.isSome then "well-formed-but-not-dispatched" else "dropped-but-not-inert"
       let st := if verdict then st
                 else judgeFail st s!"{what} class={repr st.pendClass} cb={cb} sends={sends} timers={timers} before={before.length} after={after.length}"
-      -- correspondence
-      if st.pendUnk then
-        -- outside the model: adopt the implementation's tracker state and go on
-        note { st with tr := ⟨devs, nx⟩ } "unmodelled-url"
+      -- correspondence (skipped once the model's tracker state is no longer the implementation's)
+      if st.pendUnk then note { st with desync := true } "unmodelled-url"
+      else if st.desync then st
       else match res with
         | .error e =>
-          let st := { st with tr := ⟨devs, nx⟩ }
+          let st := { st with desync := true }
           if raised = exnTok e then st else corrFail st s!"raised impl={raised} model={exnTok e}"
         | .ok (t, e) =>
           let st := { st with tr := t }
-          if raised != "-" then corrFail { st with tr := ⟨devs, nx⟩ } s!"raised impl={raised} model=-"
+          if raised != "-" then corrFail { st with desync := true } s!"raised impl={raised} model=-"
           else if !(e.cbMin ≤ cb && cb ≤ e.cbMax) then corrFail st s!"callbacks impl={cb} model={e.cbMin}..{e.cbMax}"
           else if sends != e.sends || timers != e.timers then corrFail st s!"sends/timers impl={sends}/{timers} model={e.sends}/{e.timers}"
-          else if devs != t.devices || nx != t.next then
-            corrFail { st with tr := ⟨devs, nx⟩ } s!"devices impl[{fmtDevs devs} next={nx}] model[{fmtDevs t.devices} next={t.next}]"
+          else if (pendIsListener st) && cbl != (e.notif.map fmtNotif).toList then
+            corrFail st s!"callback impl={cbl} model={(e.notif.map fmtNotif).toList}"
+          else if devs != devsOf t || nx != t.next then
+            corrFail { st with desync := true } s!"devices impl[{fmtDevs devs} next={nx}] model[{fmtDevs (devsOf t)} next={t.next}]"
           else st
     | _, _ => corrFail (judgeFail st "unparsable eff") "unparsable eff"
   | _ => corrFail st s!"bad-op {" ".intercalate (toks.take 2)}"
